@@ -1,6 +1,7 @@
 ----------------------------- MODULE MC_MultiAlg -----------------------------
 EXTENDS MultiAlg, Sequences
-StoresDef == {"legacy", "cache"}
+StoresDef == {"legacy", "cache", "plain"}      \* plain: a generic-class store (md5) on a local directory
+LocalDef == {"legacy", "cache"}
 AlgDef == [s \in StoresDef |-> IF s = "legacy" THEN "md5-dos2unix" ELSE "md5"]
 ContentsDef == {"lf", "lfcr", "crlf", "bin"}   \* lfcr = the CRLF twin of lf; bin = binary data containing CR LF pairs
 \* md5 and md5-dos2unix agree exactly on content without CRLF pairs in a text file; under md5-dos2unix a CRLF text
